@@ -26,6 +26,7 @@ import (
 	"github.com/sourcenetwork/defradb/internal/core"
 	"github.com/sourcenetwork/defradb/internal/datastore"
 	"github.com/sourcenetwork/defradb/internal/encryption"
+	"github.com/sourcenetwork/defradb/internal/keys"
 )
 
 func putBlock(
@@ -143,6 +144,33 @@ func determineBlockEncryption(
 	}
 
 	// otherwise we use the same encryption as the previous block
+	encBlock, encLink, err := inheritBlockEncryption(ctx, txn, heads, false)
+	if err != nil || encBlock != nil {
+		return encBlock, encLink, err
+	}
+
+	// A field that is written for the first time has no previous block to inherit from.
+	// If the document itself is encrypted, the field must be encrypted with the document's key.
+	if fieldName.HasValue() && len(heads) == 0 {
+		docHeadsKey := keys.HeadstoreDocKey{DocID: docID, FieldID: core.COMPOSITE_NAMESPACE}
+		docHeads, _, err := NewHeadSet(txn.Headstore(), docHeadsKey).List(ctx)
+		if err != nil {
+			return nil, cidlink.Link{}, NewErrGettingHeads(err)
+		}
+		return inheritBlockEncryption(ctx, txn, docHeads, true)
+	}
+
+	return nil, cidlink.Link{}, nil
+}
+
+// inheritBlockEncryption returns the encryption of the first of the given heads that is encrypted.
+// If docLevelOnly is true, only encryption that applies to the whole document is considered.
+func inheritBlockEncryption(
+	ctx context.Context,
+	txn datastore.Txn,
+	heads []cid.Cid,
+	docLevelOnly bool,
+) (*Encryption, cidlink.Link, error) {
 	for _, headCid := range heads {
 		prevBlockBytes, err := txn.Blockstore().AsIPLDStorage().Get(ctx, headCid.KeyString())
 		if err != nil {
@@ -160,6 +188,9 @@ func determineBlockEncryption(
 			prevEncBlock, err := GetEncryptionBlockFromBytes(prevBlockEncBytes)
 			if err != nil {
 				return nil, cidlink.Link{}, err
+			}
+			if docLevelOnly && prevEncBlock.FieldName != nil {
+				continue
 			}
 			return &Encryption{
 				DocID:     prevEncBlock.DocID,
